@@ -255,3 +255,16 @@ func (c *Ctx) cmpProf(d *Driver, p *Prof, base *string, input string, fields []i
 	}
 	return io
 }
+
+// implParseURL: the URL value itself (nil on error or panic)
+func implParseURL(p url.Parser, base *string, input string) (u *url.Url, err error) {
+	defer func() {
+		if r := recover(); r != nil {
+			u, err = nil, fmt.Errorf("panic: %v", r)
+		}
+	}()
+	if base == nil {
+		return p.Parse(input)
+	}
+	return p.ParseRef(*base, input)
+}
